@@ -7,7 +7,7 @@
      put <tag> <ref> <len> <hex> | app <tag> <ref> <hex> .. | sync
      X
    Output:
-     S <name> / wf <0|1> / E <old_end|fail>
+     S <name> / wf <0|1> / E <old_end|fail> / D <tag> <ref> <off> <len> (old directory)
      P <k> <parses> <preserves>   for every prefix k = 0..n of the library's log (image built incrementally)
      A <k> <0|1>                  offset of write k >= old end
      ML <episode> <pre|flush> <off> <hex>    model's predicted log
@@ -34,6 +34,8 @@ let process name old writes ops =
    | Some bl ->
      let e = old_end bl in
      Printf.printf "E %d\n" (int_of_z e);
+     List.iter (fun d -> Printf.printf "D %d %d %d %d\n" (int_of_z d.d_tag) (int_of_z d.d_ref) (int_of_z d.d_off) (int_of_z d.d_len))
+       (all_dds bl);
      let img = ref old in
      Printf.printf "P 0 %s %s\n" (b2s (parse_file !img <> None)) (b2s (preserves old !img));
      List.iteri (fun i (off, _, bs) ->
